@@ -19,8 +19,9 @@ def demo_cmd(path):
     grab = False
     for l in lines:
         s = re.sub(r"^\s*(//|\*|/\*)\s?", "", l).rstrip()
-        if not grab and "g++" in s:
-            s = s[s.index("cd ") if ("cd " in s and s.index("cd ") < s.index("g++")) else s.index("g++"):]
+        mm = re.search(r"(cd \S+ && )?g\+\+ -", s)
+        if not grab and mm:
+            s = s[mm.start():]
             grab = True
         if grab:
             if s.endswith("\\"):
